@@ -268,6 +268,16 @@ theorem grideval_int_arith_exact (dims : List (Dim α)) (coef : Int → α) (coo
     · rw [coefTensor_eq]; simp
     · rw [coefTensor_eq]; exact hsafe
 
+/-- **The bound in terms of the table and grid sizes.**  If `Π_d max(1, naxes_d, npts_d) < 2³¹`
+(`sizeBound`: per dimension the larger of the number of basis functions and the number of grid
+abscissae), no `slicemultiply` call of `grideval` can overflow: the C-typed routine is `gridEval`. -/
+theorem grideval_int_arith_exact_of_sizes (dims : List (Dim α)) (coef : Int → α) (coords : List (List α))
+    (hwf : GridTableWF dims) (hlen : coords.length = dims.length)
+    (h : sizeBound (dims.map (·.naxes)) (coords.map List.length) < 2147483648) :
+    gridEvalC dims coef coords = CRes.ofOption (gridEval dims coef coords) :=
+  grideval_int_arith_exact dims coef coords hwf
+    (gridIdxSafe_of_sizeBound _ _ (by simp [hlen]) h)
+
 /-! ## 7. the `slicemultiply` chain as one flat sum, and the set of listed grid points
 
 CHOLMOD's `triplet_to_sparse` / `ssmult` / `sparse_to_triplet` are modelled by their meaning (section 2).
@@ -525,8 +535,8 @@ predicate on a 2-d table with `naxes = (4, 2)` and a `3 × 1` grid. -/
 example :
     IdxIn [2,3,1] [3,4,2] ∧ colsOf [3,4,2] 1 = 6 ∧ flattenColC [3,4,2] [2,3,1] 1 = 5 ∧
     unflattenIdxC [3,7,2] 1 6 5 = .ok [2,6,1] ∧ sliceIdxSafe [3,4,2] 1 7 = true ∧
-    gridIdxSafe [4,2] 0 [3,1] = true := by
-  refine ⟨⟨rfl, by decide⟩, by decide, by decide, by rfl, by decide, by decide⟩
+    gridIdxSafe [4,2] 0 [3,1] = true ∧ sizeBound [4,2] [3,1] = 8 := by
+  refine ⟨⟨rfl, by decide⟩, by decide, by decide, by rfl, by decide, by decide, by decide⟩
 
 /-- Non-vacuity of section 7 (`grideval_get_eq_flat_sum`, `grideval_lists_iff`; `slice_lists_iff` shares
 the hypotheses of `slice_is_mode_product`, see the first example): `degTable` on the one-point grid
